@@ -147,7 +147,7 @@ def _run(job):
 
 def run(ctx):
     quick = ctx.tier == 'quick'
-    ntrain, nsample = (500, 4000) if quick else (1500, 20000)
+    ntrain, nsample = (500, 4000) if quick else (1000, 10000)
     ctx.rule = ('TLC (GaussApi) enumerates / samples requests: 2..%d columns x column kinds (gaussian, gamma, beta, uniform, student-t, bimodal, '
                 'constant, large-offset "timestamp") x dependence pattern (independent, equicorrelated +/-, AR(0.8), near-singular 0.99) x configuration form (default, class, '
                 'qualified name, instance, per-column dict with a default column) x rows to sample {1, 7, N=%d}; training tables (%d rows) are drawn '
@@ -165,7 +165,7 @@ def run(ctx):
     for c in r.tagged('CASE'):
         cases[json.dumps(c[0], sort_keys=True)] = c[0]
     # simulated part over the full product
-    r = T.run('GaussApi', cfg(2, 3 if quick else 6, KINDS, PATTERNS, FORMS, (1, 7, 1000)), workers=1, simulate='num=%d' % (120 if quick else 1500),
+    r = T.run('GaussApi', cfg(2, 3 if quick else 6, KINDS, PATTERNS, FORMS, (1, 7, 1000)), workers=1, simulate='num=%d' % (120 if quick else 500),
               depth=12, seed=ctx.seed + 21, timeout=600)
     ctx.note_tlc('GaussApi.simulate', r)
     for c in r.tagged('CASE'):
